@@ -60,7 +60,11 @@ var c12KeyPool = []string{"p1", "p2", "k001", "k002", "a", "zz", "new key", "K",
 func c12Failing(r *rt.Rand, text bool) *gen.Node {
 	// run-time failures the checker cannot see
 	var n *gen.Node
-	if r.Bool() {
+	if r.Chance(1, 5) {
+		// a named member of something that is no document (a number, an array)
+		doc := []string{`{"n": 7}`, `{"n": [1, 2]}`, `{"n": true, "m": {"y": "z"}}`}[r.Intn(3)]
+		n = gen.IndexS(gen.IndexS(gen.Call("json", gen.Str(doc)), "n"), "y")
+	} else if r.Bool() {
 		n = []*gen.Node{gen.Bin("/", gen.Int(10), gen.Call("strlen", gen.Str(""))), // division by zero, of every operand kind
 			gen.Bin("/", gen.Float("1.5"), gen.Call("strlen", gen.Str(""))),
 			gen.Bin("/", gen.Int(3), gen.Bin("-", gen.Float("0.5"), gen.Float("0.5"))),
@@ -111,6 +115,9 @@ func c12KeyExpr(r *rt.Rand) *gen.Node {
 		}
 		return gen.Call("upper", gen.Str([]string{"ka", "kb", "p1"}[r.Intn(3)]))
 	case 5:
+		if r.Chance(1, 4) {
+			return gen.Call("int", gen.Str([]string{"4.0", "11.0"}[r.Intn(2)]))
+		}
 		return gen.Bin("+", gen.Int(int64(r.Range(1, 5))), gen.Int(int64(r.Range(1, 5))))
 	}
 	return gen.Call("lower", gen.Str("KEY"+strconv.Itoa(r.Intn(3))))
@@ -123,6 +130,13 @@ func c12ValExpr(r *rt.Rand) (*gen.Node, bool) {
 	case 15:
 		return gen.Call("substr", gen.Str("uvwxyz0123456789"), gen.Int(0), gen.Call("strlen", gen.Key())), true
 	case 16:
+		if r.Chance(1, 3) {
+			// the text of a whole decimal, converted directly
+			if r.Bool() {
+				return gen.Call("int", gen.Str([]string{"3.0", "12.0", "250.00"}[r.Intn(3)])), false
+			}
+			return gen.Bin("+", gen.Call("int", gen.Str([]string{"3.0", "12.0", "40.0"}[r.Intn(3)])), gen.Int(1)), false
+		}
 		return gen.IntPadded(int64(r.Range(8, 40)), r.Range(3, 5)), false
 	case 11: // two concatenations starting at `key` alive at the same time
 		return gen.Bin("+", gen.Bin("+", gen.Key(), gen.Str("a")), gen.Bin("+", gen.Key(), gen.Str("b"))), true
